@@ -1494,6 +1494,16 @@ func (r *fxRot) Apply(ct *rlwe.Ciphertext, keys rlwe.EvaluationKeySet) {
 	_ = ct
 }
 
+// RESLICEGROW control: the polynomial left behind by an earlier shrink is taken back as it is
+type fxStack struct{ Value []ring.Poly }
+
+func (s *fxStack) Grow(level int) {
+	if n := len(s.Value); n < cap(s.Value) {
+		s.Value = s.Value[:n+1]
+		s.Value[n].Resize(level)
+	}
+}
+
 `
 
 // control runs scan over the fixture and demands a violation whose key contains each of the wanted substrings.
